@@ -8,7 +8,7 @@ import propbase
 ID = "C07"
 MODULE = "HttpcoreModel.Props.C07"
 THEOREMS = [f"Httpcore.C07.{n}" for n in ("every_queue_change_triggers_pass", "queue_change_sites_found", "pass_complete", "no_overtaking", "served_when_possible", "assignAll_complete",
-                                           "assignOne_unassigned", "assignOne_stuck")]
+                                           "assignOne_unassigned", "assignOne_stuck")] + ["Httpcore.Wrap.establishing_shared_iff_h2_possible", "Httpcore.Wrap.closed_tunnel_not_shared"]
 TRUSTED = [
     "Lean 4.33 kernel; axioms per theorem under coverage.theorems",
     "hand-written model Pool.pass (shared with C04/C09), tied by lock-step execution on the real pool with stub connections (this run)",
